@@ -103,7 +103,10 @@ def programs(seed, count, yields=True, eof=True):
         lead = ''
         if rnd.random() < 0.25:
             lead = ' '.join(action(False, dict(feat, **{'yield': False})) for _ in range(rnd.randint(1, 2))) + ' '
-            if 'finish' in lead:
+            # statements before the first match run in start(): there no byte has been read and outputs without a default hold whatever the
+            # memory held, so a lead that reads $last, the enum output or string bytes (beyond the current length) makes the program depend on
+            # unspecified data - its own precondition violation, not a property of nmfu. (The random stream is consumed as before.)
+            if 'finish' in lead or any(tok in lead for tok in ('$last', 'e ==', 's[', 't[', 'w[')):
                 lead = ''
         body = lead + pat() + '; ' + stmts(rnd.choice([2, 2, 3]), False, feat)
         args = []
